@@ -6,18 +6,22 @@ ReqEq) and spec/http/HttpReq.tla (bounded grammar built as states, a model of Re
 every read segmentation, the serialiser with any stable field order, named deviations).
 
 1. TLC, Dev = {}:  the lemmas Denote(Render(r)) = Norm(r) and Denote(Render(Inject(Denote(b)))) = Denote(b)
-   on every request of the bounded grammar (sweep A: all start lines x bodies x few fields; sweep B: field
+   on every request of the bounded grammar (sweep A: all start lines x bodies x Content-Length spellings x few
+   fields, and the scale family - 19..100 fields over a pool of 3 / 11 names in three spellings, bodies of
+   255..257 bytes; sweep C (thorough): pairs over the whole 33-entry catalogue; sweep B: field
    lists up to length 2 / 3 from the catalogue); the parser model returns Denote(wire) and consumes exactly
    the request under EVERY segmentation (BufReader capacity 8192 and 3), always terminates, and
    serialise-then-parse yields an equal request for every stable field order.
 2. TLC, one deviation each (XffUntrimmed, UnstableHeaderSort, UnicodeTrimStart - the three repaired defects -
-   and five plausible regressions): the named invariant MUST be violated (the model is not vacuous).
+   and eight plausible regressions): the named invariant MUST be violated (the model is not vacuous).
 3. spec -> code: TLC prints every request of the grammar (bytes, peer, expected abstract request); the
    harness parses each under all read plans (all-at-once, one byte per read, every single split point,
    fixed 2/3/7, seeded random; the tokio twin additionally with Poll::Pending before segments) with the
    sync and the tokio parser, compares field by field, serialises, parses again and compares again.
-4. code -> spec: a Rust-side generator (0..40 fields, long values, bodies up to 64 KiB, Cookie, X-Forwarded-For
-   with garbage) is parsed / serialised / re-parsed by the real code and logged; TLC (Trace_HttpReq) computes
+4. code -> spec: a Rust-side generator (0..100 fields with one name 2..10 times and counts around 20 / 32, long
+   values, one representative per Unicode class at the start / inside / at the end of values, paths, queries and
+   cookie names / values, degenerate Cookie pieces, X-Forwarded-For lists of up to 8 entries with empty ones and
+   non-ASCII digits, bodies up to 64 KiB with lengths around 2^8, 2^13 and 2^16, zero-padded Content-Length) is parsed / serialised / re-parsed by the real code and logged; TLC (Trace_HttpReq) computes
    the denotation of each logged head with the same operators and accepts or rejects every record.
 5. binding self-test: one corrupted vector must be reported by the harness, one corrupted log record must be
    rejected by TLC."""
@@ -45,6 +49,9 @@ SENSITIVITY = [  # (deviation, invariant that must be violated)
     ("ValueLowercased", "Inv_Faithful"),
     ("XffFirstIsOrigin", "Inv_Faithful"),
     ("LineNoAccumulate", "Inv_NoError"),
+    ("NameCaseSensitive", "Inv_Faithful"),
+    ("CookieLastEq", "Inv_Faithful"),
+    ("XffStopAtGarbage", "Inv_Faithful"),
     ("ZeroHdrExtraCrlf", "Inv_SerialExact"),   # auxiliary invariant, not part of C02: documents the extra CRLF
 ]
 
@@ -71,6 +78,9 @@ def _jtmp():
     return {"_JAVA_OPTIONS": "-Djava.io.tmpdir=" + d}
 
 
+HUNG = set()      # runtimes whose parser did not return (watchdog of the harness)
+
+
 def _tlc(cfg, **kw):
     kw.setdefault("work_id", "c02")
     kw.setdefault("timeout", 2400)
@@ -83,11 +93,28 @@ def _replay_vectors(ctx, bins, lines, label, account=True):
     data = "\n".join(json.dumps(x, separators=(",", ":")) for x in lines) + "\n"
     out = []
     for rt, path in bins:
+        if rt in HUNG:      # this parser already failed to return once: do not wait for it again
+            out.append({"cases": 0, "parses": 0, "roundtrips": 0, "nontrivial": 0, "mismatches": 1, "samples": [], "first": []})
+            continue
         p = run_bin(path, ["replay"], stdin_data=data, timeout=3000)
         res = [x for x in parse_jsonl(p.stdout) if x.get("summary")]
+        if p.returncode < 0 and not res:
+            # killed by a signal inside the code under test (abort, stack overflow): a finding, not a tool failure
+            ctx.violation("%s parser: the harness process was killed by signal %d while parsing the vectors of %s" % (rt, -p.returncode, label),
+                          {"kind": "httpreq-crash", "runtime": rt, "label": label, "stderr": p.stderr[-1500:]})
+            out.append({"cases": 0, "parses": 0, "roundtrips": 0, "nontrivial": 0, "mismatches": 1, "samples": [], "first": []})
+            continue
         if p.returncode != 0 or not res:
             raise vlib.ToolError("httpreq replay (%s) failed rc=%s: %s" % (rt, p.returncode, p.stderr[-2000:]))
         s = res[0]
+        if s.get("hang"):
+            # the parser never returned: a finding about the code, not a tool failure
+            HUNG.add(rt)
+            vec = s.get("vector") or {}
+            ctx.violation(s["hang"], {"kind": "httpreq-vectors", "runtime": rt, "label": label, "what": s["hang"],
+                                      "first": [{"b": vec.get("b"), "peer": vec.get("peer"), "expected": vec.get("exp")}]})
+            out.append({"cases": 0, "parses": 0, "roundtrips": 0, "nontrivial": 0, "mismatches": 1, "samples": [], "first": []})
+            continue
         if s["cases"] != len(lines):
             raise vlib.ToolError("harness (%s) consumed %d of %d vectors" % (rt, s["cases"], len(lines)))
         out.append(s)
@@ -174,7 +201,8 @@ def run(tier, replay):
     #  the two small machine configurations instead - every action must label at least one edge - and, for
     #  the lemma sweeps, by requiring that the generation run prints one vector per built request.)
     lemma = {}
-    for sweep in ("A", "B"):
+    sweeps = ("A", "B", "C") if thorough else ("A", "B")
+    for sweep in sweeps:
         r = _tlc("MC_HttpReq_%s%s.cfg" % (T, sweep), workers=8, heap="4g")
         ctx.add_tlc("lemmas on the bounded grammar, sweep %s, Dev={}" % sweep, r)
         ctx.require_tlc_ok("MC_HttpReq_%s%s" % (T, sweep), r)
@@ -199,8 +227,11 @@ def run(tier, replay):
     def sens(item):
         dev, inv = item
         return dev, inv, _tlc("MC_HttpReq_dev_%s.cfg" % dev, workers=2, heap="2g", timeout=900, work_id="c02-" + dev)
-    with concurrent.futures.ThreadPoolExecutor(max_workers=3) as ex:
-        for dev, inv, r in ex.map(sens, SENSITIVITY):
+    with concurrent.futures.ThreadPoolExecutor(max_workers=6) as ex:
+        # quick runs the repaired defects and one plausible regression per mechanism, thorough runs all of them
+        quick_devs = ("XffUntrimmed", "UnstableHeaderSort", "UnicodeTrimStart", "BodySingleRead", "NameCaseSensitive",
+                      "CookieLastEq", "XffStopAtGarbage", "ZeroHdrExtraCrlf")
+        for dev, inv, r in ex.map(sens, [x for x in SENSITIVITY if thorough or x[0] in quick_devs]):
             ctx.add_tlc("sensitivity: Dev={%s} must violate %s" % (dev, inv), r)
             if r.violation != "invariant" or r.violated_name != inv:
                 raise vlib.ToolError("model lost sensitivity: Dev={%s} gives %s %s instead of a violation of %s" % (
@@ -209,7 +240,7 @@ def run(tier, replay):
     # 3. vectors from TLC replayed on both parsers --------------------------------------------------
     nontrivial = 0
     keep = []
-    for sweep in ("A", "B"):
+    for sweep in sweeps:
         g = _tlc("Gen_HttpReq_%s%s.cfg" % (T, sweep), workers=4, heap="4g")
         if g.violation:
             raise vlib.ToolError("generation failed: %s" % g.out[-2000:])
@@ -225,47 +256,65 @@ def run(tier, replay):
         keep += lines[:1] + lines[len(lines) // 2:len(lines) // 2 + 1]
 
     # 4. random / large requests recorded from the real code, validated by TLC ----------------------
-    n_rand = {"threaded": 1500 if thorough else 300, "tokio": 800 if thorough else 150}
+    n_rand = {"threaded": 1500 if thorough else 240, "tokio": 800 if thorough else 120}
     recs = []
     for rt, path in bins:
+        if rt in HUNG:
+            continue
         p = run_bin(path, ["random", str(n_rand[rt]), "65536"], timeout=1800)
         got = parse_jsonl(p.stdout)
+        hung = [x for x in got if x.get("hang")]
+        if hung:
+            HUNG.add(rt)
+            ctx.violation(hung[0]["hang"], {"kind": "httpreq-hang", "runtime": rt, "what": hung[0]["hang"]})
+            continue
+        if p.returncode < 0:
+            ctx.violation("%s parser: the harness process was killed by signal %d while parsing generated requests" % (rt, -p.returncode),
+                          {"kind": "httpreq-crash", "runtime": rt, "stderr": p.stderr[-1500:]})
+            continue
         if p.returncode != 0 or len(got) != n_rand[rt]:
             raise vlib.ToolError("httpreq random (%s) failed rc=%s n=%d: %s" % (rt, p.returncode, len(got), p.stderr[-1500:]))
         recs += got
-    tr = os.path.join(vlib.workdir("C02"), "random.ndjson")
-    vlib.write_lines(tr, recs)
-    rej = _validate_trace(ctx, tr, "trace validation of %d recorded requests" % len(recs), len(recs))
-    ctx.cov["evaluations"] += sum(r["plans"] + 2 for r in recs)
-    ctx.cov["traces_validated_against_impl"] += len(recs)
-    big = sum(1 for r in recs if r["got"]["nh"] > 20 or r["body"][0] >= 8192)
-    ctx.add_part("recorded requests validated by TLC", records=len(recs), with_more_than_20_fields=sum(1 for r in recs if r["got"]["nh"] > 20),
-                 with_body_of_8KiB_or_more=sum(1 for r in recs if r["body"][0] >= 8192),
-                 max_head_bytes=max(len(r["head"]) for r in recs), max_body_bytes=max(r["body"][0] for r in recs), rejected=len(rej))
-    ctx.sample({"recorded": _short(recs[0])}, limit=12)
-    if rej:
-        ctx.violation("%d recorded request(s) are not explained by the specification (parse, segmentation or round trip); first: %s" % (
-            len(rej), json.dumps(_short(recs[rej[0] - 1]))[:900]),
-            {"kind": "httpreq-trace", "records": [recs[i - 1] for i in rej[:5]]})
+    rej = []
+    big = 0
+    if recs:
+        tr = os.path.join(vlib.workdir("C02"), "random.ndjson")
+        vlib.write_lines(tr, recs)
+        rej = _validate_trace(ctx, tr, "trace validation of %d recorded requests" % len(recs), len(recs))
+        os.remove(tr)
+        ctx.cov["evaluations"] += sum(r["plans"] + 2 for r in recs)
+        ctx.cov["traces_validated_against_impl"] += len(recs)
+        big = sum(1 for r in recs if r["got"]["nh"] > 20 or r["body"][0] >= 8192)
+        ctx.add_part("recorded requests validated by TLC", records=len(recs), with_more_than_20_fields=sum(1 for r in recs if r["got"]["nh"] > 20),
+                     with_body_of_8KiB_or_more=sum(1 for r in recs if r["body"][0] >= 8192),
+                     max_head_bytes=max(len(r["head"]) for r in recs), max_body_bytes=max(r["body"][0] for r in recs), rejected=len(rej))
+        ctx.sample({"recorded": _short(recs[0])}, limit=12)
+        if rej:
+            ctx.violation("%d recorded request(s) are not explained by the specification (parse, segmentation or round trip); first: %s" % (
+                len(rej), json.dumps(_short(recs[rej[0] - 1]))[:900]),
+                {"kind": "httpreq-trace", "records": [recs[i - 1] for i in rej[:5]]})
 
     # 5. the binding itself: a corrupted vector and a corrupted log record must be caught ------------
-    bad = copy.deepcopy(keep[-1])
-    bad["exp"]["p"] = bad["exp"]["p"] + "x"
-    s = _replay_vectors(ctx, bins[:1], [bad], "self-test", account=False)[0]
-    if s["mismatches"] == 0:
-        raise vlib.ToolError("self-test: the harness accepted a vector whose expected path was altered")
-    ok_rec = next(r for r in recs if r["got"]["ok"] and r["got"]["nh"] > 0 and not (rej and recs.index(r) + 1 in rej))
-    bad_rec = copy.deepcopy(ok_rec)
-    bad_rec["got"]["h"][0][1][0] = bad_rec["got"]["h"][0][1][0] + ["!"]
-    vlib.write_lines(tr, [ok_rec, bad_rec])
-    rej2 = _validate_trace(ctx, tr, "self-test", 2, account=False)
-    os.remove(tr)
-    if rej2 != [2]:
-        raise vlib.ToolError("self-test: Trace_HttpReq did not single out the corrupted record (rejected %s)" % rej2)
-    ctx.add_part("binding self-test", corrupted_vector_reported=True, corrupted_log_record_rejected=True)
+    # (only after a clean validation: on a tree that already fails, the verdict is the violation, not the self-test)
+    if not ctx.violations:
+        bad = copy.deepcopy(keep[-1])
+        bad["exp"]["p"] = bad["exp"]["p"] + "x"
+        s = _replay_vectors(ctx, bins[:1], [bad], "self-test", account=False)[0]
+        if s["mismatches"] == 0:
+            raise vlib.ToolError("self-test: the harness accepted a vector whose expected path was altered")
+        ok_rec = next(r for r in recs if r["got"]["ok"] and r["got"]["nh"] > 0 and not (rej and recs.index(r) + 1 in rej))
+        bad_rec = copy.deepcopy(ok_rec)
+        bad_rec["got"]["h"][0][1][0] = bad_rec["got"]["h"][0][1][0] + ["!"]
+        tr = os.path.join(vlib.workdir("C02"), "selftest.ndjson")
+        vlib.write_lines(tr, [ok_rec, bad_rec])
+        rej2 = _validate_trace(ctx, tr, "self-test", 2, account=False)
+        os.remove(tr)
+        if rej2 != [2]:
+            raise vlib.ToolError("self-test: Trace_HttpReq did not single out the corrupted record (rejected %s)" % rej2)
+        ctx.add_part("binding self-test", corrupted_vector_reported=True, corrupted_log_record_rejected=True)
 
     ctx.cov["distinct_nontrivial"] = nontrivial + big
-    ctx.cov["rule"] = ("TLC enumerates the bounded grammar (start lines x bodies x field lists from a 22-entry catalogue); each request is "
+    ctx.cov["rule"] = ("TLC enumerates the bounded grammar (start lines x bodies x field lists from a 33-entry catalogue, plus the scale family of 19..100 fields); each request is "
                        "parsed by both parsers under every read plan and round-tripped. Non-trivial = distinct generated requests with a repeated "
                        "field name, a Cookie field, an X-Forwarded-For list, a body or a query, plus recorded requests with more than 20 fields "
                        "or a body of at least 8 KiB")
